@@ -37,6 +37,7 @@ inductive Ev where
   | wake
   | clear (c : Nat)
   | exit
+  | waitErr                       -- the wait call failed (select: EBADF): the loop gives up
   | fuel                          -- model artefact: iteration bound hit (never on real scripts)
   deriving DecidableEq, Repr
 
@@ -83,6 +84,9 @@ structure St where
   backend : Backend := .poll
   hints   : Nat := 8                -- hints_max_fd (capacity − 1 for poll / epoll)
   legacy  : Bool := false           -- poll: original `--n` accounting (see fixes/C13-*.patch)
+  legacySel : Bool := false         -- select: original scan without FD_CLR on close
+  closeFd : Bool := false           -- the close callback closes the descriptor (as the
+                                    -- library's own socket layer does)
   -- kernel
   nds     : Nat := 0
   ds      : Nat → Desc := fun _ => {}
@@ -91,6 +95,7 @@ structure St where
   flag      : Nat → Bool := fun _ => false      -- MUGGLE_EV_CTX_FLAG_CLOSED
   delivered : Nat → Nat := fun _ => 0           -- ghost: bytes offered to cb_read so far
   tried     : Nat → Bool := fun _ => false      -- add_ctx was called for this context
+  fdClosed  : Nat → Bool := fun _ => false      -- the read end was closed by the close callback
   -- muggle_event_loop_t
   ctxList : List Nat := []
   toExit  : Nat := 0                -- 0 | 1 EXIT | 2 WAKE
@@ -188,7 +193,8 @@ def cbRead (sc : Script) (c : Nat) (s : St) : St :=
   runActs (sc.onRead c before after) (emit (.read c r.1 r.2.1) s)
 
 def cbClose (sc : Script) (c : Nat) (s : St) : St :=
-  runActs (sc.onClose c) (emit (.close c) s)
+  let s := runActs (sc.onClose c) (emit (.close c) s)
+  if s.closeFd then { s with fdClosed := upd s.fdClosed c true } else s
 
 /-- `muggle_evloop_*_handle_wakeup` body when the eventfd was reported readable -/
 def handleWake (sc : Script) (s : St) : St :=
@@ -285,10 +291,12 @@ def selCount (s : St) : Nat :=
 def selRead (sc : Script) (c : Nat) (s : St) : St :=
   if s.rset.contains c then cbRead sc c s else s
 
-/-- `cb_close; node = muggle_linked_list_remove(node)` -/
+/-- `cb_close; FD_CLR(fd, &allset); node = muggle_linked_list_remove(node)` — the `FD_CLR` is
+fixes/C13-select-stale-fd.patch: a context added during this dispatch is already in `allset` -/
 def selClose (sc : Script) (i c : Nat) (s : St) : St :=
   let s := cbClose sc c s
-  { s with ctxList := s.ctxList.eraseIdx i }
+  { s with ctxList := s.ctxList.eraseIdx i,
+           allset := if s.legacySel then s.allset else s.allset.erase c }
 
 /-- scan of `ctx_list` by position; removal of the current node keeps the position,
 appends by callbacks are reached later in the same scan -/
@@ -308,9 +316,14 @@ def selDispatch (sc : Script) (s : St) : St :=
   let s := { s with allsig := true, nfds := 0 }
   selScan sc (s.ctxList.length + s.nds + 1) 0 s
 
+/-- `select` fails with `EBADF` when a descriptor it has to examine is closed -/
+def selBad (s : St) : Bool := s.allset.any (fun c => decide (fdOf c ≤ s.nfds) && s.fdClosed c)
+
 def selLoop (sc : Script) : Nat → St → St
   | 0, s => emit .fuel s
   | f + 1, s =>
+    if selBad s then act .exit (emit .waitErr s)      -- n < 0, errno != EINTR: muggle_evloop_exit
+    else
     let s := selQuery s
     if selCount s = 0 then selLoop sc f (idle sc s)
     else
@@ -387,14 +400,16 @@ def run (sc : Script) (fuel : Nat) (s : St) : St :=
   emit .exit (clearAll (backendRun sc fuel s))
 
 /-- state after `muggle_evloop_new` for a back-end (select: the eventfd is in `allset`) -/
-def initSt (b : Backend) (hints : Nat) (legacy : Bool) (kinds : List Kind) : St :=
-  { backend := b, hints := hints, legacy := legacy, nds := kinds.length,
+def initSt (b : Backend) (hints : Nat) (legacy : Bool) (kinds : List Kind)
+    (legacySel : Bool := false) (closeFd : Bool := false) : St :=
+  { backend := b, hints := hints, legacy := legacy, legacySel := legacySel, closeFd := closeFd,
+    nds := kinds.length,
     ds := fun d => { kind := kinds.getD d .pipe }, allsig := true }
 
 /-- whole scenario: world, actions before `muggle_evloop_run`, then the run -/
 def scenario (b : Backend) (hints : Nat) (legacy : Bool) (kinds : List Kind) (pre : List Act)
-    (sc : Script) (fuel : Nat) : St :=
-  run sc fuel (runActs pre (initSt b hints legacy kinds))
+    (sc : Script) (fuel : Nat) (legacySel : Bool := false) (closeFd : Bool := false) : St :=
+  run sc fuel (runActs pre (initSt b hints legacy kinds legacySel closeFd))
 
 /-! ## outcomes (what the back-ends are compared on) -/
 
